@@ -16,6 +16,7 @@ import EasyMl.Lemmas.FallibleMatrix
 import EasyMl.Lemmas.FallibleZip
 import EasyMl.Lemmas.FallibleExpansion
 import EasyMl.Lemmas.FallibleRange
+import EasyMl.Lemmas.FallibleNamed
 
 namespace EasyMl.C16
 open EasyMl EasyMl.Spec EasyMl.Fallible EasyMl.MatrixView
@@ -507,5 +508,190 @@ theorem historySummary_cases (h : Option Nat) (rest : List (Option Nat)) :
 theorem pre_recordMatrix_panics :
     (recordMatrixFromIter (ν := String) Arith.pre usizeMax 2 "rows" "columns" [some 0, some 0]).isOk
       = false := by decide
+
+/-! ## 9. `Ok` ⇔ valid, with validity as a decidable predicate
+
+  For each fallible constructor family: a `Bool`-valued predicate on the *arguments alone* and
+  the theorem that the API answers `Ok` exactly on the arguments satisfying it (the API never
+  panics: sections 2–4). -/
+
+/-- `Tensor::try_from(shape, data)` answers `Ok` ⇔ `data.len()` is the element count of the shape
+    and the shape is valid (`InvalidShapeError::is_valid`). -/
+theorem tensorTryFrom_ok_iff (shape : Shape ν) (n : Nat) (hn : n ≤ usizeMax) :
+    (∃ t, tensorTryFrom Arith.fixed shape n = .ok (.ok t)) ↔
+      (decide (n = elements shape) && isValidShape shape) = true := by
+  rw [tensorTryFrom_fixed_eq shape n hn]
+  simp only [Bool.and_eq_true, decide_eq_true_eq]
+  by_cases hc : n = elements shape ∧ isValidShape shape = true
+  · rw [if_pos hc]; exact ⟨fun _ => hc, fun _ => ⟨_, rfl⟩⟩
+  · rw [if_neg hc]
+    constructor
+    · rintro ⟨t, ht⟩; simp at ht
+    · intro h; exact absurd h hc
+
+/-- **`is_valid` ⇔ some constructor call succeeds.**  A shape passes `InvalidShapeError::is_valid`
+    and has a representable element count exactly when `Tensor::try_from` accepts it for some
+    data length. -/
+theorem isValid_iff_constructible (shape : Shape ν) :
+    (isValidShape shape = true ∧ elements shape ≤ usizeMax) ↔
+      ∃ n, n ≤ usizeMax ∧ ∃ t, tensorTryFrom Arith.fixed shape n = .ok (.ok t) := by
+  constructor
+  · rintro ⟨hv, hb⟩
+    exact ⟨elements shape, hb, (tensorTryFrom_ok_iff shape _ hb).mpr (by simp [hv])⟩
+  · rintro ⟨n, hn, ht⟩
+    have := (tensorTryFrom_ok_iff shape n hn).mp ht
+    simp only [Bool.and_eq_true, decide_eq_true_eq] at this
+    exact ⟨this.2, by rw [← this.1]; exact hn⟩
+
+/-- `TensorAccess::try_from` / `TensorTranspose::try_from` answer `Ok` ⇔ the requested names are a
+    permutation of the source's (`List.isPerm`, decidable). -/
+theorem accessTryFrom_ok_iff [Inhabited ν] (src : TView ν) (hsrc : src.WF) (dimensions : List ν) :
+    ((∃ v, accessTryFrom src dimensions = .ok (.ok v)) ↔
+      dimensions.isPerm (src.shape.map (·.1)) = true) ∧
+    ((∃ v, transposeTryFrom src dimensions = .ok (.ok v)) ↔
+      dimensions.isPerm (src.shape.map (·.1)) = true) := by
+  rw [List.isPerm_iff]
+  constructor
+  · rcases accessTryFrom_spec src hsrc dimensions with ⟨v, h, _, hp⟩ | ⟨h, hnp⟩
+    · exact ⟨fun _ => hp, fun _ => ⟨v, h⟩⟩
+    · constructor
+      · rintro ⟨v, hv⟩; rw [h] at hv; simp at hv
+      · intro hp; exact absurd hp hnp
+  · rcases transposeTryFrom_spec src hsrc dimensions with ⟨v, h, _, _, hp⟩ | ⟨h, hnp⟩
+    · exact ⟨fun _ => hp, fun _ => ⟨v, h⟩⟩
+    · constructor
+      · rintro ⟨v, hv⟩; rw [h] at hv; simp at hv
+      · intro hp; exact absurd hp hnp
+
+/-- The eight `TensorRange` / `TensorMask` constructors answer `Ok` exactly on the arguments
+    their validity predicate accepts: names distinct and known (`namesOk`), no range beyond its
+    dimension for the strict ones (`exceedsAny`), every dimension keeps an index
+    (`rangeKeeps` / `maskKeeps`, computed from `min(start+length, len) − start`). -/
+theorem range_mask_ok_iff_valid (src : TView ν) (hsrc : src.WF)
+    (named : List (ν × IndexRange)) (all : List (Option IndexRange))
+    (hlen : all.length = src.shape.length) :
+    (IsOk (rangeFrom Arith.fixed src named) ↔ validRangeFrom src.shape named = true) ∧
+    (IsOk (maskFrom Arith.fixed src named) ↔ validMaskFrom src.shape named = true) ∧
+    (IsOk (rangeFromStrict Arith.fixed src named) ↔ validRangeFromStrict src.shape named = true) ∧
+    (IsOk (maskFromStrict Arith.fixed src named) ↔ validMaskFromStrict src.shape named = true) ∧
+    (IsOk (rangeFromAll Arith.fixed src all) ↔ validRangeFromAll src.shape all = true) ∧
+    (IsOk (maskFromAll Arith.fixed src all) ↔ validMaskFromAll src.shape all = true) ∧
+    (IsOk (rangeFromAllStrict Arith.fixed src all) ↔ validRangeFromAllStrict src.shape all = true) ∧
+    (IsOk (maskFromAllStrict Arith.fixed src all) ↔ validMaskFromAllStrict src.shape all = true) :=
+  ⟨rangeFrom_ok_iff src hsrc named, maskFrom_ok_iff src hsrc named,
+   rangeFromStrict_ok_iff src hsrc named, maskFromStrict_ok_iff src hsrc named,
+   rangeFromAll_ok_iff src hsrc all hlen, maskFromAll_ok_iff src hsrc all hlen,
+   rangeFromAllStrict_ok_iff src hsrc all hlen, maskFromAllStrict_ok_iff src hsrc all hlen⟩
+
+/-- For distinct, known names `from_named_to_all` answers the table of the given ranges by
+    dimension (`None` where no range was given). -/
+theorem fromNamedToAll_table (shape : Shape ν) (hshape : (shape.map (·.1)).Nodup)
+    (ranges : List (ν × IndexRange)) (hok : namesOk shape ranges = true) :
+    fromNamedToAll shape ranges = .ok (.ok (namedTable shape ranges)) :=
+  fromNamedToAll_eq shape hshape ranges ((namesOk_iff shape ranges).mp hok).1
+    ((namesOk_iff shape ranges).mp hok).2
+
+/-- **The named constructors are the positional ones on the table of the given ranges.**  With
+    distinct, known names, `from` / `from_strict` answer exactly what `from_all` /
+    `from_all_strict` answer for `namedTable` (the `panic!` arm of the strict forms, reached only
+    by an `InvalidDimensions` error of the inner call, is dead). -/
+theorem named_eq_positional (src : TView ν) (hsrc : src.WF) (named : List (ν × IndexRange))
+    (hok : namesOk src.shape named = true) :
+    rangeFrom Arith.fixed src named = rangeFromAll Arith.fixed src (namedTable src.shape named) ∧
+    maskFrom Arith.fixed src named = maskFromAll Arith.fixed src (namedTable src.shape named) ∧
+    rangeFromStrict Arith.fixed src named =
+      rangeFromAllStrict Arith.fixed src (namedTable src.shape named) ∧
+    maskFromStrict Arith.fixed src named =
+      maskFromAllStrict Arith.fixed src (namedTable src.shape named) := by
+  have h := fromNamedToAll_table src.shape hsrc.1.1 named hok
+  refine ⟨by simp only [rangeFrom, h], by simp only [maskFrom, h], ?_, ?_⟩
+  · simp only [rangeFromStrict, h]
+    exact rewrapStrict_rangeFromAllStrict src hsrc _ (namedTable_length _ _)
+  · simp only [maskFromStrict, h]
+    exact rewrapStrict_maskFromAllStrict src hsrc _ (namedTable_length _ _)
+
+/-- Non-vacuity: on a 2×3 source the lenient constructor accepts an over-long range of `b`, the
+    strict one does not; a repeated and an unknown name are refused by both. -/
+example :
+    validRangeFrom [("a", 2), ("b", 3)] [("b", ⟨1, usizeMax⟩)] = true ∧
+    validRangeFromStrict [("a", 2), ("b", 3)] [("b", ⟨1, usizeMax⟩)] = false ∧
+    validRangeFrom [("a", 2), ("b", 3)] [("b", ⟨0, 1⟩), ("b", ⟨1, 1⟩)] = false ∧
+    validMaskFrom [("a", 2), ("b", 3)] [("c", ⟨0, 1⟩)] = false ∧
+    validMaskFrom [("a", 2), ("b", 3)] [("a", ⟨0, 2⟩)] = false ∧
+    namedTable [("a", 2), ("b", 3)] [("b", ⟨1, 1⟩)] = [none, some ⟨1, 1⟩] := by
+  refine ⟨by decide, by decide, by decide, by decide, by decide, by decide⟩
+
+/-- `RecordTensor::from_iter` answers `Ok` ⇔ `validRecords`. -/
+theorem recordTensorFromIter_ok_iff (shape : Shape ν) (hs : List (Option Nat))
+    (hn : hs.length ≤ usizeMax) :
+    (∃ r, recordTensorFromIter Arith.fixed shape hs = .ok (.ok r)) ↔ validRecords shape hs = true := by
+  rw [recordTensorFromIter_eq shape hs hn]
+  cases hs with
+  | nil => simp [historySummary, validRecords]
+  | cons h rest =>
+    simp only [historySummary, validRecords, Bool.and_eq_true, List.all_eq_true, beq_iff_eq,
+      decide_eq_true_eq]
+    cases hl : lastOther h rest with
+    | some later =>
+      have hne := (lastOther_some hl)
+      simp only
+      constructor
+      · rintro ⟨r, hr⟩; simp at hr
+      · rintro ⟨⟨hall, _⟩, _⟩; exact absurd (hall later hne.1) hne.2
+    | none =>
+      have hall := (lastOther_eq_none h rest).mp hl
+      simp only
+      by_cases hc : rest.length + 1 = elements shape ∧ isValidShape shape = true
+      · rw [if_pos hc]; exact ⟨fun _ => ⟨⟨hall, hc.1⟩, hc.2⟩, fun _ => ⟨_, rfl⟩⟩
+      · rw [if_neg hc]
+        constructor
+        · rintro ⟨r, hr⟩; simp at hr
+        · rintro ⟨⟨_, h1⟩, h2⟩; exact absurd ⟨h1, h2⟩ hc
+
+/-- `RecordMatrix::from_iter` answers `Ok` ⇔ `validRecordsMatrix`: non-empty, one history, as
+    many records as `rows * columns`, and that product representable (a matrix may be empty of
+    neither: a zero side makes the count 0, which a non-empty iterator cannot match). -/
+theorem recordMatrixFromIter_ok_iff (rows columns : Nat) (rn cn : ν) (hs : List (Option Nat)) :
+    (∃ r, recordMatrixFromIter Arith.fixed rows columns rn cn hs = .ok (.ok r)) ↔
+      validRecordsMatrix rows columns hs = true := by
+  rw [recordMatrixFromIter_eq rows columns rn cn hs]
+  cases hs with
+  | nil => simp [historySummary, validRecordsMatrix]
+  | cons h rest =>
+    simp only [historySummary, validRecordsMatrix, Bool.and_eq_true, List.all_eq_true, beq_iff_eq,
+      decide_eq_true_eq]
+    cases hl : lastOther h rest with
+    | some later =>
+      have hne := (lastOther_some hl)
+      simp only
+      constructor
+      · rintro ⟨r, hr⟩; simp at hr
+      · rintro ⟨⟨hall, _⟩, _⟩; exact absurd (hall later hne.1) hne.2
+    | none =>
+      have hall := (lastOther_eq_none h rest).mp hl
+      simp only
+      by_cases hc : rest.length + 1 = rows * columns ∧ rows * columns ≤ usizeMax
+      · rw [if_pos hc]; exact ⟨fun _ => ⟨⟨hall, hc.1⟩, hc.2⟩, fun _ => ⟨_, rfl⟩⟩
+      · rw [if_neg hc]
+        constructor
+        · rintro ⟨r, hr⟩; simp at hr
+        · rintro ⟨⟨_, h1⟩, h2⟩; exact absurd ⟨h1, h2⟩ hc
+
+/-- Non-vacuity: three records of one history fill a 3-element shape; a foreign history, a
+    constant among records, a wrong count, a zero length and the empty iterator are refused. -/
+example :
+    validRecords [("x", 3)] [some 7, some 7, some 7] = true ∧
+    validRecords [("x", 3)] [some 7, some 8, some 7] = false ∧
+    validRecords [("x", 3)] [some 7, none, some 7] = false ∧
+    validRecords [("x", 3)] [some 7, some 7] = false ∧
+    validRecords [("x", 0)] ([] : List (Option Nat)) = false ∧
+    validRecordsMatrix 1 2 [none, none] = true ∧
+    validRecordsMatrix 2 2 [none, none] = false ∧
+    (decide (6 = elements [("a", 2), ("b", 3)]) && isValidShape [("a", 2), ("b", 3)]) = true ∧
+    (decide (0 = elements [("a", 0), ("b", 3)]) && isValidShape [("a", 0), ("b", 3)]) = false ∧
+    ["b", "a"].isPerm ([("a", 2), ("b", 3)].map (·.1)) = true ∧
+    ["b", "b"].isPerm ([("a", 2), ("b", 3)].map (·.1)) = false := by
+  refine ⟨by decide, by decide, by decide, by decide, by decide, by decide, by decide, by decide,
+    by decide, by decide, by decide⟩
 
 end EasyMl.C16
